@@ -55,6 +55,11 @@ impl<'a> FreeVariableCollector<'a> {
         for term in &chain.terms {
             self.visit_term(term);
         }
+        // The binding pattern of `pattern = chain` can reference variables too (`&y = 5`,
+        // `[&y, z] = pair`), exactly like an in-chain `=pattern` term.
+        if let Some(pattern) = &chain.match_pattern {
+            self.visit_match(pattern);
+        }
     }
 
     fn visit_term(&mut self, term: &ast::Term) {
